@@ -628,6 +628,9 @@ func (p AllShortest) Between(uid, vid int64) (path []graph.Node, weight float64,
 			if !fromOK {
 				return []graph.Node{node(uid)}, 0, true
 			}
+			if math.Float64bits(p.dist.At(from, to)) == defacedBits {
+				return nil, math.Inf(-1), false
+			}
 			return []graph.Node{p.nodes[from]}, 0, true
 		}
 		return nil, math.Inf(1), false
@@ -692,6 +695,9 @@ func (p AllShortest) AllBetween(uid, vid int64) (paths [][]graph.Node, weight fl
 			if !fromOK {
 				return [][]graph.Node{{node(uid)}}, 0
 			}
+			if math.Float64bits(p.dist.At(from, to)) == defacedBits {
+				return nil, math.Inf(-1)
+			}
 			return [][]graph.Node{{p.nodes[from]}}, 0
 		}
 		return nil, math.Inf(1)
@@ -727,6 +733,9 @@ func (p AllShortest) AllBetweenFunc(uid, vid int64, fn func(path []graph.Node)) 
 		if uid == vid {
 			if !fromOK {
 				fn([]graph.Node{node(uid)})
+				return
+			}
+			if math.Float64bits(p.dist.At(from, to)) == defacedBits {
 				return
 			}
 			fn([]graph.Node{p.nodes[from]})
